@@ -9,9 +9,19 @@ Local Open Scope N_scope.
 
 (* ---- nseq / nth_N ---- *)
 
+Lemma nseq_from_eq n s : nseq_from n s = map (fun i => s + N.of_nat i) (seq 0 n).
+Proof.
+  revert s. induction n as [|n IH]; intro s; [reflexivity|].
+  cbn [nseq_from seq map]. rewrite IH. f_equal; [lia|].
+  rewrite <- seq_shift, map_map. apply map_ext. intro i. lia.
+Qed.
+
+Lemma nseq_eq n : nseq n = map N.of_nat (seq 0 (N.to_nat n)).
+Proof. unfold nseq. rewrite nseq_from_eq. apply map_ext. intro i. lia. Qed.
+
 Lemma In_nseq x n : In x (nseq n) <-> x < n.
 Proof.
-  unfold nseq. rewrite in_map_iff. split.
+  rewrite nseq_eq. rewrite in_map_iff. split.
   - intros [i [E Hi]]. apply in_seq in Hi. lia.
   - intro H. exists (N.to_nat x). split; [lia|]. apply in_seq. lia.
 Qed.
@@ -23,11 +33,11 @@ Proof.
 Qed.
 
 Lemma nseq_length n : length (nseq n) = N.to_nat n.
-Proof. unfold nseq. now rewrite map_length, seq_length. Qed.
+Proof. rewrite nseq_eq. now rewrite map_length, seq_length. Qed.
 
 Lemma nth_N_nseq n i : i < n -> nth_N (nseq n) i = Some i.
 Proof.
-  intro H. unfold nth_N, nseq. rewrite nth_error_map, nth_error_seq' by lia.
+  intro H. rewrite nseq_eq. unfold nth_N. rewrite nth_error_map, nth_error_seq' by lia.
   simpl. f_equal. lia.
 Qed.
 
